@@ -309,11 +309,52 @@ theorem cookie_roundtrip (n : Bytes) (hn : cookieNameValid n = true) (s : Bytes)
 theorem cookie_roundtrip_k (s : Bytes) : cookie [clientEcho (setCookieHeader [107] s)] [107] = s :=
   cookie_roundtrip [107] (by decide) s
 
+/-- Several cookies on ONE response do not disturb each other: for any two DISTINCT valid names — no
+    constraint on prefixes: `session` / `session_id`, `a` / `ab` are covered — and any two byte strings,
+    writing both with `SetCookie`, letting the client store every `Set-Cookie` line and send them back in one
+    `Cookie` header, reads EACH value back byte for byte.  The statement is symmetric in the two writes, so it
+    covers both call orders (`cookies_independent_swapped` spells the other one out). -/
+theorem cookies_independent (n₁ n₂ : Bytes) (h₁ : cookieNameValid n₁ = true) (h₂ : cookieNameValid n₂ = true)
+    (hne : n₁ ≠ n₂) (s₁ s₂ : Bytes) :
+    cookie [clientCookieHeader (setCookies [(n₁, s₁), (n₂, s₂)])] n₁ = s₁ ∧
+    cookie [clientCookieHeader (setCookies [(n₁, s₁), (n₂, s₂)])] n₂ = s₂ := by
+  obtain ⟨hn₁, _⟩ := name_facts h₁
+  obtain ⟨hn₂, _⟩ := name_facts h₂
+  have hs₁ := queryEscape_safe s₁
+  have hs₂ := queryEscape_safe s₂
+  rw [clientCookieHeader_two s₁ s₂ h₁ h₂ hne]
+  have e₁ : n₁.isEmpty = false := by simp [hn₁]
+  have e₂ : n₂.isEmpty = false := by simp [hn₂]
+  have hne' : ¬ n₂ = n₁ := fun h => hne h.symm
+  constructor
+  · unfold cookie requestCookie readCookies
+    simp only [e₁, Bool.false_eq_true, if_false, List.flatMap_cons, List.flatMap_nil, List.append_nil]
+    rw [readCookieLine_pair h₁ h₂ hs₁ hs₂]
+    simp [List.filterMap, readCookiePart_line h₁ hs₁ hn₁, readCookiePart_line h₂ hs₂ hn₁, hne,
+      unescapeOrRaw, queryUnescape_queryEscape]
+  · unfold cookie requestCookie readCookies
+    simp only [e₂, Bool.false_eq_true, if_false, List.flatMap_cons, List.flatMap_nil, List.append_nil]
+    rw [readCookieLine_pair h₁ h₂ hs₁ hs₂]
+    simp [List.filterMap, readCookiePart_line h₁ hs₁ hn₂, readCookiePart_line h₂ hs₂ hn₂, hne',
+      unescapeOrRaw, queryUnescape_queryEscape]
+
+/-- the other call order, as an instance -/
+theorem cookies_independent_swapped (n₁ n₂ : Bytes) (h₁ : cookieNameValid n₁ = true)
+    (h₂ : cookieNameValid n₂ = true) (hne : n₁ ≠ n₂) (s₁ s₂ : Bytes) :
+    cookie [clientCookieHeader (setCookies [(n₂, s₂), (n₁, s₁)])] n₁ = s₁ ∧
+    cookie [clientCookieHeader (setCookies [(n₂, s₂), (n₁, s₁)])] n₂ = s₂ :=
+  (cookies_independent n₂ n₁ h₂ h₁ (fun h => hne h.symm) s₂ s₁).symm
+
 /-! ## non-vacuity -/
 
 -- escaping really happens and the stored text is read back decoded
 example : setCookieHeader [107] [97, 32, 98, 59] = [107, 61, 97, 43, 98, 37, 51, 66] := by decide   -- k=a+b%3B
 example : cookie [[107, 61, 97, 43, 98, 37, 51, 66]] [107] = [97, 32, 98, 59] := by decide
+-- prefix-related names (`ab` written first, then `a`) on one response, both read back
+example : cookie [clientCookieHeader (setCookies [([97, 98], [120, 32]), ([97], [121])])] [97, 98] = [120, 32] ∧
+    cookie [clientCookieHeader (setCookies [([97, 98], [120, 32]), ([97], [121])])] [97] = [121] := by decide
+-- an equal name written twice: the client keeps the last
+example : cookie [clientCookieHeader (setCookies [([97], [49]), ([97], [50])])] [97] = [50] := by decide
 -- the rule's three branches are all inhabited
 example : query (parseQuery [107, 61, 120]) [107] (some [100]) = [120] := by decide       -- k=x   → "x"
 example : query (parseQuery [107, 61]) [107] (some [100]) = [100] := by decide            -- k=    → default
